@@ -51,6 +51,9 @@ structure P where
   sinceBump : Nat := 0
   /-- the hook's limit; 0 = hook off -/
   noProgressLimit : Nat := 0
+  /-- ghost: positions of live markers created by `CompletedMarker::precede` (targets of a
+  forward-parent link that are still tombstones) -/
+  protectedPos : List Nat := []
   deriving Repr, Inhabited
 
 abbrev G := StateT P (Except Outcome)
@@ -142,9 +145,12 @@ def eatRawTokens (kind : SyntaxKind) : Nat :=
 def eat (kind : SyntaxKind) : G Bool := do
   -- `eat(EOF)` would move `pos` past the end of the input; the grammar never asks for it
   if kind == .EOF then fail (.modelError "Parser::eat(EOF)")
-  if !(← at' kind) then return false
-  doBump kind (eatRawTokens kind)
-  return true
+  else
+    let b ← at' kind
+    if !b then return false
+    else
+      doBump kind (eatRawTokens kind)
+      return true
 
 /-- `Parser::bump` -/
 def bump (kind : SyntaxKind) : G Unit := do
@@ -182,10 +188,10 @@ structure CompletedMarker where
 
 /-- `Parser::start` -/
 def start : G Marker := do
-  let pos := (← get).events.size
+  let s ← get
   pushEvent Ev.tombstone
   modify fun s => { s with live := s.live + 1 }
-  return { pos := pos }
+  return { pos := s.events.size }
 
 /-- `Marker::complete` -/
 def Marker.complete (m : Marker) (kind : SyntaxKind) : G CompletedMarker := do
@@ -197,7 +203,8 @@ def Marker.complete (m : Marker) (kind : SyntaxKind) : G CompletedMarker := do
     if k0 != .TOMBSTONE then fail (.modelError "Marker::complete: marker already completed")
     else if kind == .TOMBSTONE then fail (.modelError "Marker::complete with TOMBSTONE")
     else
-      set { s with events := s.events.set! m.pos (.start kind fp), live := s.live - 1 }
+      set { s with events := s.events.set! m.pos (.start kind fp), live := s.live - 1,
+                   protectedPos := s.protectedPos.filter (· != m.pos) }
       pushEvent .finish
       return ⟨m.pos, kind⟩
   | _ => panic "Marker::complete unreachable"
@@ -205,11 +212,16 @@ def Marker.complete (m : Marker) (kind : SyntaxKind) : G CompletedMarker := do
 /-- `Marker::abandon` -/
 def Marker.abandon (m : Marker) : G Unit := do
   let s ← get
-  if m.isFp then fail (.modelError "Marker::abandon of a forward-parent marker")
+  -- abandoning (popping) an event that a forward-parent link points at would leave the link
+  -- dangling and make `process` hit `unreachable!()`; the grammar never does it
+  if m.isFp || s.protectedPos.contains m.pos then
+    fail (.modelError "Marker::abandon of a forward-parent marker")
   else if s.events.size == 0 then panic "Marker::abandon underflow"
   else if m.pos == s.events.size - 1 then
     match s.events.back? with
-    | some (.start .TOMBSTONE none) => set { s with events := s.events.pop, live := s.live - 1 }
+    | some (.start k fp) =>
+      if k == .TOMBSTONE && fp.isNone then set { s with events := s.events.pop, live := s.live - 1 }
+      else panic "Marker::abandon unreachable"
     | _ => panic "Marker::abandon unreachable"
   else set { s with live := s.live - 1 }
 
@@ -221,7 +233,8 @@ def CompletedMarker.precede (cm : CompletedMarker) : G Marker := do
   | some (.start k _) =>
     if newPos.pos < cm.pos then panic "CompletedMarker::precede u32 underflow"
     else
-      set { s with events := s.events.set! cm.pos (.start k (some (newPos.pos - cm.pos))) }
+      set { s with events := s.events.set! cm.pos (.start k (some (newPos.pos - cm.pos))),
+                   protectedPos := newPos.pos :: s.protectedPos }
       return { newPos with isFp := true }
   | _ => panic "CompletedMarker::precede unreachable"
 
@@ -232,9 +245,16 @@ def CompletedMarker.extendTo (cm : CompletedMarker) (m : Marker) : G CompletedMa
   | some (.start k _) =>
     if cm.pos < m.pos then panic "CompletedMarker::extend_to u32 underflow"
     else
-      set { s with events := s.events.set! m.pos (.start k (some (cm.pos - m.pos))),
-                   live := s.live - 1 }
-      return cm
+      -- a `CompletedMarker` always denotes a completed `Start` event
+      match s.events[cm.pos]? with
+      | some (.start k' _) =>
+        if k' == .TOMBSTONE then
+          fail (.modelError "CompletedMarker::extend_to: not a completed marker")
+        else
+          set { s with events := s.events.set! m.pos (.start k (some (cm.pos - m.pos))),
+                       live := s.live - 1 }
+          return cm
+      | _ => fail (.modelError "CompletedMarker::extend_to: not a completed marker")
   | _ => panic "CompletedMarker::extend_to unreachable"
 
 /-- `Parser::err_recover` -/
